@@ -1,9 +1,9 @@
 """C20: parsers derived with tiny-cli's ArgParse/Subcommand accept exactly their declared grammar, round-trip
 every value assignment under every option order, reject the rest with an error value carrying the relevant
 help text, never panic.
-Oracle: 19 derived shapes compiled into engines/h_cli, each with a hand-written grammar description and
+Oracle: 20 derived shapes compiled into engines/h_cli, each with a hand-written grammar description and
 struct->value conversion; generic renderer + reference reading of an argument list; catch_unwind around every
-parse; native debug and release, Miri on a sample."""
+parse and every rendering of the error value; native debug and release, Miri on a sample."""
 import json
 import re
 
@@ -59,6 +59,10 @@ def run(ck, replay=None):
             # every shard works on all shapes with its own random stream
             add(prof, d, "sweep", 60 if quick else (2500 if prof == "release" else 600), i, ns)
             add(prof, d, "random", 6_000 if quick else (250_000 if prof == "release" else 60_000), i, ns)
+        na = 2 if quick else 8
+        for i in range(na):
+            # full sweep in both tiers: pads 0..4 x 6 fillers x total lengths 80..=160, every shape
+            add(prof, d, "align", 0, i, na)
         add(prof, d, "static", 0, 0, 1)
     res = vlib.run_parallel([{k: v for k, v in j.items() if not k.startswith("_")} for j in jobs])
     for j, r in zip(jobs, res):
@@ -91,7 +95,8 @@ def run(ck, replay=None):
     elif warm["rc"] != 0:
         ck.note_inconclusive("miri build/run failed: %s" % warm["err"][-400:])
     ck.exhaustive = False
-    ck.extra["shapes"] = 19
+    ck.extra["shapes"] = 20
+    ck.extra["alignment_sweep"] = "ASCII pad 0..=4 (letters and dashes) x 2/3/4-byte and mixed fillers x total 80..=160 bytes"
     ck.extra["all_orders_up_to_units"] = 5
     ck.assume("declared grammar: an argument equal to an option literal of the current level is that option, the "
               "argument after a valued option is its value whatever it looks like, -h/--help elsewhere is a help request, "
@@ -104,11 +109,13 @@ def run(ck, replay=None):
               "Display = help + cause; agreement on the cause class is reported in counters only, because a line may "
               "carry several defects. A help request met first must display exactly the help text of its level")
     ck.assume("argument vectors contain no interior NUL (they cannot, coming from argv)")
-    return ("19 derived parsers (required/optional/repeated options, aliases, flags, required and optional positionals, "
+    return ("20 derived parsers (required/optional/repeated options, aliases, flags, required and optional positionals, "
             "&str/&UnixStr/String/UnixString/integer/custom FromStr fields, required, optional and nested subcommands); "
             "per shape: random value assignments with boundary values rendered under all orders of their option/positional "
-            "units when there are at most 5 (sampled orders beyond) and parsed back; 13 kinds of mutation of the rendered "
-            "lines, a help request at every argument boundary, and random argument vectors over literals/numbers/arbitrary "
+            "units when there are at most 5 (sampled orders beyond) and parsed back; 14 kinds of mutation of the rendered "
+            "lines, a help request at every argument boundary, an alignment sweep (multi-byte text with ASCII pads 0..4 and total "
+            "lengths 80..160 as unknown argument, option value, number and echoed conversion error, so that every code-point "
+            "offset meets the edge of the 128-byte cause buffer), and random argument vectors over literals/numbers/arbitrary "
             "bytes, all compared with a reference reading of the declared grammar under catch_unwind; debug + release, "
             "time-boxed Miri sample. distinct = (shape, case kind, unit-count bucket / mutation kind, order class, "
             "reference class, outcome) cells")
